@@ -43,7 +43,14 @@ def run_real(acts):
                 return self.cycle_fut
         src = TP(asynchronous=True)
 
+        has_flag = hasattr(src, "_run_live")
+
         def phase():
+            if not has_flag:
+                # no such private flag on this tree (renamed / restructured): the invocation's own marks still tell where it stands
+                if src.in_run and src.cycle_fut is not None and not src.cycle_fut.done():
+                    return "inCycle"
+                return "unknown"
             if not src._run_live:
                 return "none"
             if src.in_run and src.cycle_fut is not None and not src.cycle_fut.done():
@@ -53,13 +60,13 @@ def run_real(acts):
             return "atCheck"
 
         def obs():
-            return {"stopped": bool(src.stopped), "runLive": bool(src._run_live), "restart": bool(getattr(src, "_restart", False)),
-                    "phase": phase(), "cycles": src.cycles}
+            return {"stopped": bool(src.stopped), "runLive": bool(getattr(src, "_run_live", False)), "restart": bool(getattr(src, "_restart", False)),
+                    "phase": phase(), "cycles": src.cycles, "has_flag": has_flag}
         for a in acts:
             if a == "start":
-                was_live = bool(src._run_live)
+                was_live = bool(getattr(src, "_run_live", False))
                 src.start()
-                if not was_live and src._run_live:
+                if has_flag and not was_live and src._run_live:
                     src.began = src.in_run = src.exited = False          # a new _run_once has been scheduled
             elif a == "stop":
                 src.stop()
@@ -81,6 +88,18 @@ def run_real(acts):
                         if phase() != "finishing":
                             break
             out.append(obs())
+        # behavioural probe (no private attribute involved): a source left started must go on polling
+        probe = None
+        if not src.stopped:
+            c0 = src.cycles
+            for _ in range(16):
+                if src.cycle_fut is not None and not src.cycle_fut.done() and src.in_run:
+                    src.cycle_fut.set_result(None)
+                await asyncio.sleep(0)
+                if src.cycles > c0:
+                    break
+            probe = src.cycles > c0
+        out.append({"probe": probe})
         # wind down
         src.stop()
         if src.cycle_fut is not None and not src.cycle_fut.done():
@@ -124,9 +143,19 @@ def run(ctx, prop, n):
         except Exception as e:      # noqa: BLE001
             ctx.disagreement("SourceFuture correspondence: driving the real source raised %s: %s" % (type(e).__name__, e), case)
             continue
+        probe = got.pop()["probe"]
+        has_flag = all(g.pop("has_flag") for g in got) if got else True
         ctx.case(case, nontrivial=any(g["phase"] == "finishing" for g in got))
         if any(g["phase"] == "finishing" for g in got):
             ctx.count("source-future:window-reached")
+        if probe is False:
+            ctx.failure("no-loop-after-start:future-run", "Source whose run() returns a Future, history %r: the source is left started (stopped False) but "
+                        "no polling cycle begins any more however long the loop runs" % (acts,), case,
+                        oracle="start() on a stopped source takes effect: a polling loop is active until the next stop")
+            continue
+        if not has_flag:
+            ctx.count("source-future:private-flag-absent(state-comparison-skipped)")
+            continue
         for i, (g, w) in enumerate(zip(got, want)):
             if g != w:
                 ctx.disagreement("SourceFuture correspondence (Source whose run() returns a Future vs Model/SourceFuture.lean): after action %d (%s) of %r "
@@ -134,9 +163,3 @@ def run(ctx, prop, n):
                 break
         else:
             ctx.coverage["traces_validated_against_impl"] = ctx.coverage.get("traces_validated_against_impl", 0) + 1
-        # model-free: a started source has a live invocation that will poll (the property's 'no lost start')
-        last = got[-1] if got else None
-        if last and not last["stopped"] and (last["phase"] == "none" or (last["phase"] == "finishing" and not last["restart"])):
-            ctx.failure("no-loop-after-start:future-run", "Source whose run() returns a Future, history %r: the source is started (stopped False) but no invocation "
-                        "of run() is live or due (state %r)" % (acts, last), case,
-                        oracle="start() on a stopped source takes effect: a polling loop is active until the next stop")
